@@ -483,3 +483,200 @@ Section SendQuery.
       rewrite Hb2. eapply os_perm; [|exact Hos5]. perm_solve.
   Qed.
 End SendQuery.
+
+(* ------------------------------------------------------------------------------------ *)
+(* the invariant of the work stack                                                        *)
+(* ------------------------------------------------------------------------------------ *)
+Definition q_ok (cs : list (option wconn)) (q : query) : Prop :=
+  match q_cqn q with None => True | Some (ci, _) => ci < length cs end.
+(* a request whose requeue is pending is detached, or still attached to a closed connection *)
+Definition q_parked (cs : list (option wconn)) (q : query) : Prop :=
+  match q_cqn q with None => True | Some (ci, _) => get_slot cs ci = None end.
+
+Lemma get_slot_some_lt {A} (cs : list (option A)) i : get_slot cs i <> None -> i < length cs.
+Proof.
+  unfold get_slot. intros H. apply nth_error_Some. intros Hn. rewrite Hn in H. apply H. reflexivity.
+Qed.
+
+Lemma q_ok_ext cs cs' q : (cs' = cs \/ exists c, cs' = cs ++ [Some c]) -> q_ok cs q -> q_ok cs' q.
+Proof.
+  unfold q_ok. intros [->|[c ->]] H; [exact H|]. destruct (q_cqn q) as [[ci nb]|]; [|exact I].
+  rewrite app_length. simpl. lia.
+Qed.
+
+Lemma q_parked_ext cs cs' q : (cs' = cs \/ exists c, cs' = cs ++ [Some c]) -> q_ok cs q -> q_parked cs q -> q_parked cs' q.
+Proof.
+  unfold q_ok, q_parked. intros [->|[c ->]] Hok H; [exact H|]. destruct (q_cqn q) as [[ci nb]|]; [|exact I].
+  rewrite get_slot_app by exact Hok. exact H.
+Qed.
+
+Lemma q_parked_set cs ci q : q_parked cs q -> q_parked (set_slot cs ci None) q.
+Proof.
+  unfold q_parked. destruct (q_cqn q) as [[cj nb]|]; [|auto]. intros H.
+  destruct (Nat.eq_dec ci cj) as [->|Hne]; [apply get_set_slot_same | rewrite get_set_slot_other by exact Hne; exact H].
+Qed.
+
+Lemma qid_inj qs q q' : NoDup (qids qs) -> In q qs -> In q' qs -> q_qid q = q_qid q' -> q = q'.
+Proof.
+  intros Hnd H1 H2 He. pose proof (find_unique qs q Hnd H1) as F1. pose proof (find_unique qs q' Hnd H2) as F2.
+  rewrite He in F1. congruence.
+Qed.
+
+Lemma NoDup_map_filter (p : query -> bool) qs : NoDup (qids qs) -> NoDup (qids (filter p qs)).
+Proof.
+  unfold qids. induction qs as [|x r IH]; simpl; intros H; [constructor|].
+  inversion H as [|? ? Hx Hr]; subst. destruct (p x); simpl; [|apply IH; exact Hr].
+  constructor; [|apply IH; exact Hr]. intros Hin. apply Hx.
+  apply in_map_iff in Hin. destruct Hin as (y & Hy & Hyin). apply filter_In in Hyin.
+  apply in_map_iff. exists y. tauto.
+Qed.
+
+Lemma w_after_refused_run ch ci st qid c h h2 :
+  get_slot (w_conns ch) ci = Some c ->
+  free_opts [Some (wc_node c); Some (wc_sock c)] h = Ok (tt, h2) ->
+  w_after ch qid (NRefused ci st) h
+  = Ok ((mkWchan (set_slot (w_conns ch) ci None) (w_queries ch) (w_closed ch),
+         map (fun o => WRequeue o st) (map q_qid (filter (on_conn ci) (w_queries ch)))
+           ++ [WCloseFinish [wc_cq c; wc_in c; wc_out c; wc_blk c]; WRequeue qid st]), h2).
+Proof.
+  intros Hs Hf. unfold w_after, w_close_begin. rewrite Hs.
+  unfold bindM at 1. unfold bindM at 1. rewrite Hf. reflexivity.
+Qed.
+
+Section Invariant.
+  Variable f : oracle.
+  Variable E : wenv.
+  Variable base : nat.
+  Variable ids : list Z.
+  Hypothesis ids_nodup : NoDup ids.
+
+  Record Inv (ch : wchan) (work : list witem) (log : cblog) (h : heap) : Prop := mkInv {
+    i_os : OS base (owned ch work) h;
+    i_ids : Permutation (qids (w_queries ch) ++ map fst log) ids;
+    i_rng : forall q, In q (w_queries ch) -> q_ok (w_conns ch) q;
+    i_wnd : NoDup (work_qids work);
+    i_wq : forall qid, In qid (work_qids work) ->
+                       exists q, find_query (w_queries ch) qid = Some q /\ q_parked (w_conns ch) q }.
+
+  Lemma inv_nodup ch work log h : Inv ch work log h -> NoDup (qids (w_queries ch)).
+  Proof.
+    intros I. pose proof (Permutation_NoDup (Permutation_sym (i_ids _ _ _ _ I)) ids_nodup) as H.
+    destruct (NoDup_app_inv _ _ H) as (A & _ & _). exact A.
+  Qed.
+
+  (* one pass through ares_send_query for a detached request with no requeue pending, and what
+     it leaves on the work stack *)
+  Lemma send_after_inv ch q rest log h :
+    Inv ch rest log h -> In q (w_queries ch) -> detached q -> ~ In (q_qid q) (work_qids rest) ->
+    exists ch2 log2 more h2,
+      (r <- w_send_query f E ch q log ;;
+       let '(ch1, log1, nx) := r in
+       a <- w_after ch1 (q_qid q) nx ;;
+       ret (fst a, log1, snd a)) h = Ok ((ch2, log2, more), h2) /\
+      Inv ch2 (more ++ rest) log2 h2.
+  Proof.
+    intros I Hin Hdet Hnot.
+    pose proof (inv_nodup _ _ _ _ I) as Hnd.
+    destruct I as [Hos Hids Hrng Hwnd Hwq].
+    destruct (w_send_query_spec f E base ch q log rest h Hos Hnd Hin Hdet) as (ch1 & log1 & nx & h1 & Hrun & Hres).
+    rewrite (bindM_ok _ _ _ _ _ Hrun). cbv beta iota.
+    destruct ch as [cs qs cl]. cbn [w_conns w_queries w_closed] in *.
+    pose proof (qids_split qs q Hnd Hin) as [Hqp Hqn].
+    pose proof (Permutation_map q_qid Hqp) as Hqp'. cbn [map] in Hqp'. fold (qids qs) in Hqp'. fold (qids (del_query qs (q_qid q))) in Hqp'.
+    (* facts about the requests whose requeue is pending, carried over a connection being added *)
+    assert (Hwq' : forall cs', (cs' = cs \/ exists c, cs' = cs ++ [Some c]) ->
+              forall qid', In qid' (work_qids rest) ->
+              exists q', find_query qs qid' = Some q' /\ q_parked cs' q' /\ qid' <> q_qid q).
+    { intros cs' Hext qid' Hq'. destruct (Hwq qid' Hq') as (q' & Hf & Hp).
+      exists q'. split; [exact Hf|]. split.
+      - eapply q_parked_ext; [exact Hext | apply Hrng; apply (find_query_In _ _ _ Hf) | exact Hp].
+      - intros ->. contradiction. }
+    inversion Hres; subst; clear Hres;
+      match goal with H : _ = cs \/ _ |- _ => rename H into Hext end;
+      match goal with H : OS base (owned _ rest) _ |- _ => rename H into Hos' end.
+    - (* ended *)
+      unfold w_after, ret, bindM. cbn [fst snd].
+      eexists; eexists; eexists; eexists. split; [reflexivity|]. cbn [app].
+      constructor; cbn [w_conns w_queries w_closed].
+      + assumption.
+      + rewrite map_app. cbn [map fst]. eapply Permutation_trans; [|exact Hids]. perm_solve_z.
+      + intros q' Hq'. apply In_del in Hq'. eapply q_ok_ext; [eassumption | apply Hrng; tauto].
+      + exact Hwnd.
+      + intros qid' Hq'. destruct (Hwq' cs' Hext qid' Hq') as (q' & Hf & Hp & Hne).
+        exists q'. rewrite find_del_other by exact Hne. auto.
+    - (* registered *)
+      unfold w_after, ret, bindM. cbn [fst snd].
+      eexists; eexists; eexists; eexists. split; [reflexivity|]. cbn [app].
+      constructor; cbn [w_conns w_queries w_closed].
+      + assumption.
+      + eapply Permutation_trans; [|exact Hids]. apply Permutation_app_tail.
+        apply qids_put_perm; [exact Hnd|].
+        match goal with H : q_qid q2 = q_qid q |- _ => rewrite H end. apply in_map. exact Hin.
+      + intros q' [<-|Hq'].
+        * unfold q_ok. match goal with H : q_cqn q2 = Some _ |- _ => rewrite H end. apply get_slot_some_lt. assumption.
+        * apply In_del in Hq'. eapply q_ok_ext; [eassumption | apply Hrng; tauto].
+      + exact Hwnd.
+      + intros qid' Hq'. destruct (Hwq' cs' Hext qid' Hq') as (q' & Hf & Hp & Hne).
+        exists q'. rewrite find_put_other by (match goal with H : q_qid q2 = q_qid q |- _ => rewrite H end; exact Hne). auto.
+    - (* requeue the request itself *)
+      unfold w_after, ret, bindM. cbn [fst snd].
+      eexists; eexists; eexists; eexists. split; [reflexivity|].
+      constructor; cbn [w_conns w_queries w_closed].
+      + assumption.
+      + exact Hids.
+      + intros q' Hq'. eapply q_ok_ext; [eassumption | apply Hrng; exact Hq'].
+      + cbn. constructor; assumption.
+      + cbn. intros qid' [<-|Hq'].
+        * exists q. split; [apply find_unique; assumption|]. unfold q_parked. rewrite (proj2 Hdet). exact I.
+        * destruct (Hwq' cs' Hext qid' Hq') as (q' & Hf & Hp & Hne). exists q'. auto.
+    - (* the write was refused: close the connection, requeue its requests, then this one *)
+      match goal with H : get_slot cs' ci <> None |- _ => rename H into Hslot end.
+      destruct (get_slot cs' ci) as [c|] eqn:Eslot; [|contradiction]. clear Hslot.
+      set (X := all_qblks qs ++ all_cblks (set_slot cs' ci None) ++ work_blks rest).
+      assert (Hos2 : OS base (cat_somes [Some (wc_node c); Some (wc_sock c)] ++ ([wc_cq c; wc_in c; wc_out c; wc_blk c] ++ X)) h1).
+      { eapply os_perm; [|exact Hos']. unfold owned, X. cbn [w_queries w_conns cat_somes].
+        pose proof (all_cblks_take cs' ci c Eslot) as Ht. unfold wc_blocks in Ht. perm_solve. }
+      destruct (os_free_opts base _ _ h1 Hos2) as (h2 & Hfr & Hos3 & _).
+      match goal with |- context [w_after ?ch0 (q_qid q) (NRefused ci ?st0)] =>
+        rewrite (bindM_ok _ _ _ _ _ (w_after_refused_run ch0 ci st0 (q_qid q) c h1 h2 Eslot Hfr)) end.
+      unfold ret. cbn [fst snd w_conns w_queries w_closed].
+      eexists; eexists; eexists; eexists. split; [reflexivity|].
+      set (others := map q_qid (filter (on_conn ci) qs)).
+      (* the requests on the closed connection *)
+      assert (Hoth : forall o, In o others -> exists q', In q' qs /\ q_qid q' = o /\ exists nb, q_cqn q' = Some (ci, nb)).
+      { intros o Ho. unfold others in Ho. apply in_map_iff in Ho. destruct Ho as (q' & Hq & Hf').
+        apply filter_In in Hf'. destruct Hf' as [Hq'in Hon]. exists q'. split; [exact Hq'in|]. split; [exact Hq|].
+        unfold on_conn in Hon. destruct (q_cqn q') as [[i nb]|]; [|discriminate].
+        apply Nat.eqb_eq in Hon. subst i. eauto. }
+      constructor; cbn [w_conns w_queries w_closed].
+      + eapply os_perm; [|exact Hos3]. unfold owned, X. cbn [w_queries w_conns].
+        rewrite work_blks_app, work_blks_app, work_requeue_blks. cbn [work_blks flat_map item_blks app].
+        rewrite ?app_nil_r. perm_solve.
+      + exact Hids.
+      + intros q' Hq'. unfold q_ok. rewrite set_slot_length.
+        apply (q_ok_ext cs cs' q' Hext). apply Hrng. exact Hq'.
+      + rewrite work_qids_app, work_qids_app, work_requeue_qids. cbn [work_qids flat_map item_qid app].
+        rewrite <- app_assoc. cbn [app]. apply NoDup_app_intro.
+        * apply (NoDup_map_filter (on_conn ci) qs Hnd).
+        * constructor; [exact Hnot | exact Hwnd].
+        * intros o Ho [<-|Hor].
+          -- (* the request itself is detached *)
+             destruct (Hoth _ Ho) as (q' & Hq'in & Hq'id & nb & Hq'c).
+             assert (q' = q) by (apply (qid_inj qs); assumption). subst q'.
+             rewrite (proj2 Hdet) in Hq'c. discriminate.
+          -- (* a request with a pending requeue is not on a live connection *)
+             destruct (Hoth _ Ho) as (q' & Hq'in & Hq'id & nb & Hq'c).
+             destruct (Hwq' cs' Hext o Hor) as (q'' & Hf' & Hp & _).
+             assert (q'' = q').
+             { destruct (find_query_In _ _ _ Hf') as [Hin'' Hid'']. apply (qid_inj qs); congruence. }
+             subst q''. unfold q_parked in Hp. rewrite Hq'c in Hp. congruence.
+      + rewrite work_qids_app, work_qids_app, work_requeue_qids. cbn [work_qids flat_map item_qid app].
+        rewrite <- app_assoc. cbn [app]. intros qid' Hq'. apply in_app_or in Hq'. destruct Hq' as [Ho | [<- | Hr]].
+        * destruct (Hoth _ Ho) as (q' & Hq'in & Hq'id & nb & Hq'c). exists q'. split.
+          -- rewrite <- Hq'id. apply find_unique; assumption.
+          -- unfold q_parked. rewrite Hq'c. apply get_set_slot_same.
+        * exists q. split; [apply find_unique; assumption|]. unfold q_parked. rewrite (proj2 Hdet). exact I.
+        * destruct (Hwq' cs' Hext qid' Hr) as (q' & Hf' & Hp & _). exists q'. split; [exact Hf'|].
+          apply q_parked_set. exact Hp.
+  Qed.
+End Invariant.
